@@ -150,9 +150,10 @@ PROPS = {
         "units": ["ad"], "kani_complete": ["flags"], "kani_bounded_quick": [], "kani_bounded_thorough": ["ad_enc"],
         "design_ref": "DESIGN.md section 5 / C12",
         "not_covered": [
-            "ALL of decoding (AuthenticatorData::from_slice: the 37-byte guard, truncated sections, round trip): closures "
-            "capturing a &mut reader plus ciborium -- Verus rejects it and Kani is intractable even for the 37-byte header. "
-            "A little-endian counter in from_slice or a `< 36` guard is NOT detected",
+            "decoding is proved for the real from_slice / from_reader bodies against trusted models of std::io::Cursor / Read, "
+            "ciborium::de::from_reader (consumes >= 1 byte on success, value unconstrained) and CoseKey::from_cbor_value: "
+            "what the CBOR of the key and of the extension map decodes to is therefore not covered, nor is the equality of "
+            "decode(encode(x)) and x as a whole (the encoder is an iterator chain, bounded Kani only)",
             "the attested-credential and extension sections of the encoding (ciborium / coset inside CBMC); credential ids near 65535 bytes in the encoder",
             "header encoding (to_vec) only by the bounded Kani harness K-AD-ENC (thorough tier; sha256 stubbed)",
         ],
